@@ -4,7 +4,7 @@ import vlib
 from props import arbgen, arbprop
 
 PROP = "C04"
-PROPS_FILES = ["Nic/Props/C04.lean", "Nic/Props/TieArb.lean"]
+PROPS_FILES = ["Nic/Props/C04.lean", "Nic/Props/C04Paths.lean", "Nic/Props/TieArb.lean"]
 # Go functions translated from /repo on every run (tools/gofn) and proved equal to the model in the Tie file above
 TIE_FUNCS = ['internal/k8s/configuration.go:chooseObjectMetaWinner', 'internal/k8s/configuration.go:compareObjectMetas', 'internal/k8s/configuration.go:compareObjectMetasWithAnnotations', 'internal/k8s/configuration.go:getResourceKey', 'internal/k8s/configuration.go:getResourceKeyWithKind', 'internal/k8s/utils.go:isMinion', 'internal/k8s/utils.go:isMaster', 'pkg/apis/configuration/validation/virtualserver.go:isRegexOrExactMatch', 'pkg/apis/configuration/validation/globalconfiguration.go:generatePortProtocolKey']
 HARNESS = "vh-k8s"
@@ -16,9 +16,10 @@ RULE = ("histories biased to masters, minions (1..3 paths from {/p,/q,/r}, somet
 TRUSTED = ["standalone validity of VirtualServerRoutes is an input; the relational check (host equality, path rule) is modelled"]
 ASSUMPTIONS = ["distinct live objects have distinct UIDs"]
 LEVEL_TEXT = ("Lean 4 theorems over the arbitration model: the minions attached to a master are exactly the stored minions of its host in key "
-              "order; a path of a minion is marked valid iff that minion beats every other minion listing the path (so each path is served by "
-              "exactly one minion); a VirtualServer's routes are exactly the referenced stored routes that fit (host equal, subroutes under the "
-              "referencing path) followed by the challenge routes of its host; composition is a function of the object set."
+              "order; every path listed by a minion of the host is marked valid for exactly one minion, that minion lists it, and no minion listing it "
+              "beats that one (path_served_by_oldest_claimant, by an invariant over the two nested folds of buildMinionConfigs and a log of the claims; with distinct UIDs "
+              "it beats every other claimant: path_holder_beats_others); a VirtualServer's routes are exactly the referenced stored routes that fit (host equal, subroutes under the "
+              "referencing path), each attached once at its first fitting reference (attached_routes_distinct, fitting_route_attached), followed by the challenge routes of its host; composition is a function of the object set."
               ' Source tie: the winner comparison, isMaster / isMinion and isRegexOrExactMatch are translated from /repo on every run and proved equal to the model (Props/TieArb.lean).')
 LEVEL_NOTE = "Assurance = weaker of (theorems about the model, correspondence with the real Configuration on generated histories)."
 TECHNIQUE = "Lean 4 proof (path-holder fold = champion; route selection by structural induction) + model/implementation correspondence"
